@@ -342,6 +342,9 @@ Section NoTwice.
   Local Notation op_ok := (C03_Spec.op_ok c).
   Local Notation ghost := (C03_Spec.ghost c).
   Local Notation hist_ok := (C03_Spec.hist_ok shadowed c).
+  Local Notation bounded_b := (C03_Spec.bounded_b c).
+  Local Notation op_ok_b := (C03_Spec.op_ok_b c).
+  Local Notation hist_ok_b := (C03_Spec.hist_ok_b shadowed c).
 
   Definition att_step (cur : N) (t t' : table) : Prop :=
     forall s, tget t' (JAtt s) <> None -> tget t (JAtt s) <> None \/ cur < s.
@@ -721,40 +724,19 @@ Section NoTwice.
     apply inv_step; assumption.
   Qed.
 
-  (* the discipline, decidable *)
-  Definition bounded_b (s : N) : bool := (s / ct_spe (c_ct c) + 3) * ct_spe (c_ct c) <? two64.
-  Definition op_ok_b (g : N) (st : state) (o : op) : bool :=
-    match o with
-    | Advance s => (st_cur st <=? s) && bounded_b s
-    | SetEnv _ | Start | Head _ _ _ | RefreshAtt _ => true
-    | Tick => (Z.of_N (st_cur st / ct_spe (c_ct c)) <=? st_tick st)%Z
-              || ((g <? st_cur st / ct_spe (c_ct c)) && (st_cur st =? (st_cur st / ct_spe (c_ct c)) * ct_spe (c_ct c)))
-    | Fire (JAtt s) _ | Fire (JProp s) _ | Fire (JEarly s) _ => s <=? st_cur st
-    | Fire (JPrep e) _ => (st_cur st / ct_spe (c_ct c) <? e) && (e * ct_spe (c_ct c) <? two64)
-    | Fire (JSync _) _ => true
-    | RefreshProp ep => ep =? st_cur st / ct_spe (c_ct c)
-    | SchedAtt _ _ | SchedProp _ _ | SchedSync _ _ | RefreshSync _ => false
-    end.
-
   Lemma op_ok_b_sound : forall g st o, op_ok_b g st o = true -> op_ok g st o.
   Proof.
-    intros g st o H. destruct o; cbn [op_ok_b C03_Spec.op_ok] in *; try exact I; try discriminate.
-    - unfold C03_Spec.bounded, bounded_b in *. lia.
+    intros g st o H. destruct o; cbn [C03_Spec.op_ok_b C03_Spec.op_ok] in *; try exact I; try discriminate.
+    - unfold C03_Spec.bounded, C03_Spec.bounded_b in *. lia.
     - lia.
     - destruct n; try exact I; lia.
     - lia.
   Qed.
 
-  Fixpoint hist_ok_b (g : N) (st : state) (ops : list op) : bool :=
-    match ops with
-    | [] => true
-    | o :: ops' => op_ok_b g st o && hist_ok_b (ghost g st o) (step shadowed c st o) ops'
-    end.
-
   Lemma hist_ok_b_sound : forall ops g st, hist_ok_b g st ops = true -> hist_ok g st ops.
   Proof.
     induction ops as [|o ops IH]; intros g st H; [exact I|].
-    cbn [hist_ok_b] in H. apply andb_true_iff in H. destruct H as [H1 H2].
+    cbn [C03_Spec.hist_ok_b] in H. apply andb_true_iff in H. destruct H as [H1 H2].
     split; [apply op_ok_b_sound; exact H1 | apply IH; exact H2].
   Qed.
 
